@@ -1,0 +1,19 @@
+//! Accessors for crate-private Hyrax items (only with `--cfg pc_verif`).
+use super::data_structures::HyraxCommitmentState;
+use ark_ff::{Field, PrimeField};
+use ark_std::vec::Vec;
+
+/// `(row randomness, rows of the evaluation matrix)` of a commitment state.
+pub fn state_parts<F: PrimeField>(s: &HyraxCommitmentState<F>) -> (Vec<F>, Vec<Vec<F>>) {
+    (s.randomness.clone(), s.mat.rows())
+}
+
+/// Wrapper around `utils::tensor_prime`.
+pub fn tensor_prime<F: Field>(values: &[F]) -> Vec<F> {
+    super::utils::tensor_prime(values)
+}
+
+/// Wrapper around `utils::flat_to_matrix_column_major`.
+pub fn flat_to_matrix_column_major<T: Copy>(flat: &[T], n: usize, m: usize) -> Vec<Vec<T>> {
+    super::utils::flat_to_matrix_column_major(flat, n, m)
+}
